@@ -225,3 +225,131 @@ def native_limit(ck, threads):
     desc = f"memcrsd --runtime-type current-thread --threads {threads} --connection-limit 1: every listener thread builds its own MemcacheTcpServer and " \
            f"therefore its own semaphore; the real server answers {served} of {6 * threads} simultaneously open connections"
     return (True if served > 1 else None), desc, sc
+
+
+# ------------------------------------------------------------------------------------------------ accept loop (C17)
+def install_accept_models(E):
+    if getattr(E, '_accept_models', False):
+        return
+    E._accept_models = True
+    from mirse.models import tokio_io
+    E.enums['Out'] = [('_0', 0), ('Disabled', 1)]
+
+    @reg(E, 'MemcacheTcpServer::get_tcp_listener')
+    def get_listener(E, a, ctx):
+        return ok(Agg('TcpListener', [Opaque('listener')]))
+
+    @reg(E, 'tokio::macros::support::thread_rng_n')
+    def rng_n(E, a, ctx):
+        v = E.fresh('select_start', 32)
+        E.assume(z3.ULT(v, a[0]))
+        return v
+
+    @reg(E, 'tokio::net::TcpListener::accept')
+    def accept(E, a, ctx):
+        return Agg('AcceptFut', [a[0]])
+
+    @reg_re(E, r'^<tokio::future::poll_fn::PollFn<.*> as Future>::poll$')
+    def pollfn_poll(E, a, ctx):
+        pf = a[0].fields[0]
+        v = E.load(pf)
+        clo = v.fields[0]
+        cref = Ref(pf.cell, pf.path + (('field', 0),))
+        f = E.fns[clo.ty[8:]]
+        r = yield ('call', f, [cref, a[1]])
+        return r
+
+    @reg(E, 'tokio::future::poll_fn::poll_fn')
+    def poll_fn(E, a, ctx):
+        return Agg('PollFn', [a[0]])
+
+    @reg(E, 'Semaphore::try_acquire')
+    def try_acquire(E, a, ctx):
+        s = E.load(a[0])
+        if E.decide(z3.UGT(s.fields[0], 0)):
+            E.store(a[0], Agg('Semaphore', [s.fields[0] - 1]))
+            E.events.append(('sem.acquire',))
+            return ok(tokio_io.Permit(a[0]))
+        return err(Opaque('TryAcquireError'))
+
+
+def accept_poll(E, st, place, ctx):
+    """the accept future: hands out the next pending connection of the harness, or stays pending"""
+    q = E.rt.setdefault('incoming', 0)
+    if q <= 0:
+        return PENDING
+    E.rt['incoming'] = q - 1
+    E.events.append(('accept',))
+    sock = Sock(BV(0), BV(0), 'silent')
+    return ready(ok(Agg('tuple', [sock, Opaque('peer')])))
+
+
+def run_accept_loop(ck, tier):
+    """one MemcacheTcpServer::run future polled with N pending connections and P free permits: a connection is handed to a
+    spawned task only after one permit has been taken and forgotten; with no permit left the loop waits (nothing is spawned)
+    and resumes when a permit is returned."""
+    E = ck.E
+    install_models(E)
+    install_accept_models(E)
+    from mirse.models import tokio_io
+    # the coroutine-poll model dispatches on .ty for non-MIR futures
+    E.accept_poll = accept_poll
+    run = E.fn('MemcacheTcpServer', 'run')
+    from .world import St, World
+    P = z3.BitVec('permits', 64)
+    for incoming in ((1, 2, 3) if tier != 'quick' else (1, 2)):
+        def h(E, incoming=incoming):
+            E.assume(z3.ULE(P, 3))
+            st = St(1)
+            for c in st.wellformed():
+                E.assume(c)
+            w = World(E, st)
+            E.rt['incoming'] = incoming
+            cfg = mk(E, 'MemcacheServerConfig', timeout_secs=BV(60, 32), connection_limit=BV(3, 32), item_memory_limit=BV(1 << 20, 32), listen_backlog=BV(16, 32))
+            semref = Ref(E.alloc(Agg('Semaphore', [P])))
+            srv = E.alloc(mk(E, 'MemcacheTcpServer', storage=Ref(w.memc_cell), limit_connections=semref, config=cfg))
+            co = E.call(run, [Ref(srv), Opaque('addr')])
+            cell = E.alloc(co)
+            r1 = E.call(co.fn, [Agg('Pin', [Ref(cell)]), Opaque('cx')])
+            spawned1 = len(E.tasks)
+            permits1 = E.load(semref).fields[0]
+            ev1 = [e[0] for e in E.events if e[0] in ('accept', 'sem.acquire', 'sem.forget', 'spawn', 'sem.wait', 'sem.release_on_drop')]
+            # a served connection ends: its Client is dropped and returns the permit; the loop is polled again
+            E.store(semref, Agg('Semaphore', [E.load(semref).fields[0] + 1]))
+            r2 = E.call(E.heap[cell].fn, [Agg('Pin', [Ref(cell)]), Opaque('cx')])
+            spawned2 = len(E.tasks)
+            permits2 = E.load(semref).fields[0]
+            ev2 = [e[0] for e in E.events if e[0] in ('accept', 'sem.acquire', 'sem.forget', 'spawn', 'sem.wait', 'sem.release_on_drop')]
+            return dict(r1=r1.var, spawned1=spawned1, permits1=permits1, ev1=ev1, r2=r2.var, spawned2=spawned2, permits2=permits2, ev2=ev2)
+        res = ck.explore(h)
+        for p in res:
+            if p.status != 'ok':
+                ck.inconclusive.append(f'accept loop ({incoming} incoming): {p.status} {p.info}')
+                continue
+            F = p.out
+            n = incoming
+            exp1 = z3.If(z3.ULT(P, n), P, BV(n))
+            ck.obligation(f'accept loop, {n} incoming: connections handed to tasks = min(incoming, free permits)', p.pc,
+                          BV(F['spawned1']) == exp1, {}, None, [])
+            ck.obligation(f'accept loop, {n} incoming: every spawned task holds exactly one forgotten permit', p.pc,
+                          F['permits1'] == P - BV(F['spawned1']), {}, None, [])
+            # order: each spawn is preceded by its own acquire + forget
+            ok_order = True
+            have = 0
+            for e in F['ev2']:
+                if e == 'sem.forget':
+                    have += 1
+                elif e == 'spawn':
+                    if have <= 0:
+                        ok_order = False
+                    have -= 1
+                elif e == 'sem.release_on_drop':
+                    ok_order = False
+            ck.obligation(f'accept loop, {n} incoming: a permit is taken and forgotten before each spawn, never dropped', p.pc, z3.BoolVal(ok_order), {}, None, [])
+            # after a permit came back: exactly one more waiting connection is served, if any was waiting
+            waiting = z3.UGT(BV(n), P)
+            ck.obligation(f'accept loop, {n} incoming: a returned permit lets exactly one waiting connection in', p.pc,
+                          z3.And(BV(F['spawned2'] - F['spawned1']) == z3.If(waiting, BV(1), BV(0)),
+                                 F['permits2'] == P - BV(F['spawned1']) + 1 - BV(F['spawned2'] - F['spawned1'])), {}, None, [])
+            ck.cover(f'accept loop: {"some connection waits" if F["spawned1"] < n else "all served"}', True)
+            ck.sample({'incoming': n, 'events': F['ev2'], 'spawned_first_poll': F['spawned1'], 'spawned_after_release': F['spawned2']})
